@@ -97,6 +97,10 @@ func (c *badCondChecker) lessAndGreater(lhs, rhs *ast.BinaryExpr) bool {
 	if !astequal.Expr(lhs.X, rhs.X) {
 		return false
 	}
+	if !typep.SideEffectFree(c.ctx.TypesInfo, lhs.X) {
+		// Two calls may return different values.
+		return false
+	}
 	a := c.ctx.TypesInfo.Types[lhs.Y].Value
 	b := c.ctx.TypesInfo.Types[rhs.Y].Value
 	return a != nil && b != nil && constant.Compare(a, token.LSS, b)
